@@ -121,13 +121,26 @@ class RetBiasChooser(Chooser):
         self.rng = rng
         self.p_ret = p_ret
         self.p_other = p_other
+        self.hold: Optional[int] = None  # thread that was switched to at a return point
+        self.home: Optional[int] = None  # ... and the thread to come back to
 
     def choose(self, step, cur, runnable, kind=""):
+        # a pre-emption taken at a return point lets the other thread run one whole operation (up to its next
+        # operation boundary) inside the window, then comes back: "something complete happened in between"
+        if self.hold is not None:
+            if cur == self.hold and kind != "op" and cur in runnable:
+                return cur
+            home, self.hold, self.home = self.home, None, None
+            if home in runnable:
+                return home
         p = self.p_ret if kind == "ret" else (0.3 if kind == "op" else self.p_other)
         if cur in runnable and self.rng.random() >= p:
             return cur
         others = [t for t in runnable if t != cur] or runnable
-        return others[self.rng.randrange(len(others))]
+        nxt = others[self.rng.randrange(len(others))]
+        if kind == "ret" and cur in runnable and nxt != cur:
+            self.hold, self.home = nxt, cur
+        return nxt
 
 
 class PCTChooser(Chooser):
